@@ -5,7 +5,10 @@ LEVEL = "model_checking"
 
 
 def run(ck):
-    pass  # design-level: Decision.tla (see below)
+    # (D) construction rule of the reported justification: all arrival orders of <= 6 DECIDE votes x 6 power tables (equal, dominant member,
+    #     zero-scaled member, exact 2/3 boundary, skewed, 5 equal), equivocating senders; two mutants must be refuted
+    conslib.simple_design(ck, "MCDecision", ["MCDecision"], ["MCDecision_mutAll", "MCDecision_mutShort"],
+                          note="all arrival orders x 6 power tables; clauses of the C03 sentence as invariants")
     plan = [("random", 30), ("uniform", 8)] if ck.tier == "quick" else [("random", 300), ("uniform", 60), ("gst", 40)]
     seeds = [ck.seed] if ck.tier == "quick" else [ck.seed, ck.seed + 1000]
     conslib.run_layers(ck, plan, ["C03_"], seeds=seeds, conformance=(ck.tier != "quick"))
